@@ -46,6 +46,9 @@ def check(ctx, replay=None):
         # W = 15: halves on the word boundaries
         dict(scope="boundary", mc=["DecisionOK"], mc_maxskips=[255], kw=dict(W=15, NSys=1), stride=1, concs=10 if th else 5, expand=1),
     ]
+    if th:
+        # W = 3: every operand x every actual value (64 x 64)
+        plan.append(dict(scope="single", mc=["DecisionOK"], mc_maxskips=[255], kw=dict(W=3, NSys=1), stride=1, concs=8, expand=1))
     polfam.run_family(ctx, plan, mine={"decision"}, decision_owner="C02")
     lowering(ctx)
     ctx.cov["rule"] = ("single-condition policies: 8 operations x all 16 operands x all 16 actual values at W=2 and the 36x36 boundary pairs at W=15; "
